@@ -41,25 +41,65 @@ ALL_CLASSES = list(U.CLASSES)
 
 # ----------------------------------------------------------------------- running one history
 
-def run_impl(cls, n, mt, intents):
-  """Drive a fresh real instance. Returns (actual inputs, observations, oracle problems, stats)."""
-  d = U.Dut(cls, n, mt)
-  orc = U.Oracle(d.kind, U.capacity(cls, n), U.style_of(cls))
+PARTIAL_COV = {}      # (class, n) -> set of (head, tail) at which an enq+deq happened with 0 < len < capacity
+
+def ring_ptrs(d):
+  """(head/deq pointer, tail/enq pointer) of the multi-entry RTL classes, else None"""
+  if d.fam in 'AB' and d.n >= 2:
+    c = d.ctl(); return (c[0], c[1])
+  if d.cls == 'vrNormalN':
+    c = d.ctl(); return (c[1], c[0])
+  return None
+
+def exc_where(e):
+  import traceback
+  tb = traceback.extract_tb(e.__traceback__)
+  fr = next((f for f in reversed(tb) if '/pymtl3/' in f.filename), tb[-1])
+  return f"{fr.filename.split('/pymtl3/')[-1]}:{fr.lineno}"
+
+def run_impl(cls, n, mt, intents, probe_at=None):
+  """Drive a fresh real instance. Returns (actual inputs, observations, oracle problems, stats).
+  An exception raised by the real queue (construction, combinational evaluation or tick) while it is driven
+  protocol-legally ends the history at that cycle and is reported as the problem `queue-raised`.
+  `probe_at = k`: stats['key'] is the search key (control registers, ledger contents) after k cycles."""
+  cap = U.capacity(cls, n)
   ins, obs, bad = [], [], []
-  nx = nd = nboth_full = nboth_empty = 0
-  for t, it in enumerate(intents):
-    before = len(orc.contents())
-    i, o = d.cycle(it)
-    b, ex, dx = orc.check(i, o)
-    for k, law, msg in b: bad.append((t, k, law, msg))
-    if d.retracted is not None:
-      bad.append((t, 'rdy-law', 'retracted', f'rdy went low after en was raised: {d.retracted}')); d.retracted = None
-    nx += ex; nd += dx
-    if ex and dx and before == U.capacity(cls, n): nboth_full += 1
-    if ex and dx and before == 0: nboth_empty += 1
-    ins.append(list(i)); obs.append(o)
-  left = orc.contents()
-  return ins, obs, bad, dict(enq=nx, deq=nd, both_full=nboth_full, both_empty=nboth_empty, left=len(left), dut=d, orc=orc)
+  nx = nd = nboth_full = nboth_empty = nboth_partial = 0
+  key = None
+  raised = None
+  orc = None
+  t = -1
+  try:
+    d = U.Dut(cls, n, mt)
+    orc = U.Oracle(d.kind, cap, U.style_of(cls))
+    ring = ring_ptrs(d) is not None
+    for t, it in enumerate(intents):
+      if probe_at == t: key = (d.ctl(), orc.contents())
+      before = len(orc.contents())
+      ptrs = ring_ptrs(d) if ring else None
+      i, o = d.cycle(it)
+      b, ex, dx = orc.check(i, o)
+      for k, law, msg in b: bad.append((t, k, law, msg))
+      if d.retracted is not None:
+        bad.append((t, 'rdy-law', 'retracted', f'rdy went low after en was raised: {d.retracted}')); d.retracted = None
+      nx += ex; nd += dx
+      if ex and dx and before == cap: nboth_full += 1
+      if ex and dx and before == 0: nboth_empty += 1
+      if ex and dx and 0 < before < cap:
+        nboth_partial += 1
+        if ptrs is not None: PARTIAL_COV.setdefault((cls, n), set()).add(ptrs)
+      ins.append(list(i)); obs.append(o)
+    if probe_at == len(intents): key = (d.ctl(), orc.contents())
+  except InfraError:
+    raise
+  except Exception as e:
+    raised = type(e).__name__
+    first = (str(e).strip().split('\n') or [''])[0][:160]
+    bad.append((t if len(ins) <= t else t + 1, 'queue-raised', raised,
+                f'the real queue raised {raised} at {exc_where(e)}: {first}'))
+  left = orc.contents() if orc is not None else ()
+  return ins, obs, bad, dict(enq=nx, deq=nd, both_full=nboth_full, both_empty=nboth_empty, both_partial=nboth_partial,
+                             left=len(left), key=key, raised=raised)
 
 def fmt_obs(o):
   er, dv, ret, cnt = o
@@ -136,15 +176,20 @@ def judge(ck, case, ins, obs, bad, stats, m, sp):
   ck.hist('origin', case.get('origin', 'random'))
   ck.hist('events', 'enq', stats['enq']); ck.hist('events', 'deq', stats['deq'])
   ck.hist('events', 'enq+deq at full', stats['both_full']); ck.hist('events', 'enq+deq at empty', stats['both_empty'])
+  ck.hist('events', 'enq+deq partially filled', stats['both_partial'])
   ck.hist('events', 'reset cycles', sum(1 for i in ins if i[0]))
   impl = [fmt_obs(o) for o in obs]
-  if stats['left'] and case.get('drained', True):
+  if stats['raised']:
+    ck.hist('events', 'real queue raised', 1)
+    case = dict(case, intents=case['intents'][:len(ins) + 1])       # the history up to the cycle that raised
+  elif stats['left'] and case.get('drained', True):
     bad = bad + [(len(ins) - 1, 'fifo', 'lost', f"{stats['left']} accepted message(s) never delivered although the consumer kept asking")]
   if bad:
     seen = set()
     for t, kind, law, msg in bad:
-      sig = {'cls': U.REAL_NAME[cls].split('.')[0] + '.' + U.REAL_NAME[cls].split('.')[1], 'law': law}
-      key = (kind, sig['cls'], law)
+      sig = {'cls': U.REAL_NAME[cls], 'law': law}
+      if kind == 'queue-raised': sig = {'cls': U.REAL_NAME[cls], 'n': case['n'], 'exception': law}
+      key = (kind, sig['cls'], law, sig.get('n'))
       if key in seen: continue
       seen.add(key)
       VIOL_CAP[key] = VIOL_CAP.get(key, 0) + 1
@@ -152,6 +197,8 @@ def judge(ck, case, ins, obs, bad, stats, m, sp):
       ck.violation(kind, sig, case, {'cycle': t, 'what': msg, 'inputs (rst,enq,msg,deq)': ins[:t + 1],
                                      'impl (enqRdy deqRdy ret count)': impl[:t + 1], 'model': m[:t + 1],
                                      'oracle': 'FIFO ledger of the observed handshakes + ready law of the kind'})
+  m = m[:len(impl)] if stats['raised'] else m
+  if sp is not None and stats['raised']: sp = sp[:len(impl)]
   if impl != m:
     t = next((k for k in range(min(len(impl), len(m))) if impl[k] != m[k]), min(len(impl), len(m)))
     ck.disagreement(f'Model/Queue.runCls≈{U.REAL_NAME[cls]}', dict(case, first_diff_cycle=t), m[:t + 1], impl[:t + 1])
@@ -159,10 +206,10 @@ def judge(ck, case, ins, obs, bad, stats, m, sp):
     t = next((k for k in range(min(len(sp), len(m))) if sp[k] != m[k]), min(len(sp), len(m)))
     ck.disagreement(f'runCls≈runSpec (theorem refines_trace) {cls}', dict(case, first_diff_cycle=t), m[:t + 1], sp[:t + 1])
 
-def do_case(ck, batch, case):
-  ins, obs, bad, stats = run_impl(case['cls'], case['n'], case['mt'], case['intents'])
-  stats.pop('dut'); stats.pop('orc')
+def do_case(ck, batch, case, probe_at=None):
+  ins, obs, bad, stats = run_impl(case['cls'], case['n'], case['mt'], case['intents'], probe_at)
   batch.add(case, ins, obs, bad, stats)
+  return stats
 
 # ----------------------------------------------------------------------- exhaustive enumeration (small capacities)
 
@@ -180,8 +227,11 @@ def exhaustive(ck, batch, cls, n, mt, limit=None):
   a, b = 5, (1 << width) - 3
   offers = all_intents(fam, a, b)
   seen = {}
-  d0 = U.Dut(cls, n, mt)
-  seen[(d0.ctl(), ())] = []
+  try:
+    d0 = U.Dut(cls, n, mt)
+    seen[(d0.ctl(), ())] = []
+  except Exception:
+    pass                     # reported by the first history below as `queue-raised`
   todo = [[]]
   edges = 0
   while todo:
@@ -189,15 +239,10 @@ def exhaustive(ck, batch, cls, n, mt, limit=None):
     for prefix in todo:
       for off in offers:
         intents = prefix + [off]
-        d = U.Dut(cls, n, mt)
-        orc = U.Oracle(d.kind, cap, U.style_of(cls))
-        for it in intents:
-          i, o = d.cycle(it); orc.check(i, o)
-        key = (d.ctl(), orc.contents())
-        if key not in seen:
-          seen[key] = intents; nxt.append(intents)
         case = {'cls': cls, 'n': n, 'mt': mt, 'intents': intents + drain_intents(cap), 'origin': 'exhaustive'}
-        do_case(ck, batch, case)
+        key = do_case(ck, batch, case, probe_at=len(intents))['key']
+        if key is not None and key not in seen:
+          seen[key] = intents; nxt.append(intents)
         edges += 1
         if len(batch.items) >= 400: batch.flush()
         if limit and edges >= limit: return len(seen), edges
@@ -217,6 +262,17 @@ def corpus():
       h += [x for k in range(2 * cap + 1) for x in (E(60 + k), B(80 + k), D)]
       h += [E(100), [1, 1, 101, 1], E(102), D, D, I]
       cs.append({'cls': cls, 'n': n, 'mt': 'b16', 'intents': h + drain_intents(cap), 'origin': 'corpus'})
+  # simultaneous enqueue+dequeue while partially filled, at every (head, tail) position: for each fill level c
+  # (0 < c < n) rotate head to a start position, hold c messages, and transfer on both sides for n+1 cycles
+  for cls in ALL_CLASSES:
+    if U.CLASSES[cls][0] not in 'ABE' and cls != 'vrNormalN': continue
+    for n in U.capacities(cls, (2, 3, 4, 5, 6, 7, 8)):
+      if n < 2: continue
+      for c in range(1, n):
+        start = (c * 3) % n
+        h = [x for k in range(start) for x in (E(200 + k), D)] + [E(300 + k) for k in range(c)]
+        h += [B(400 + k) for k in range(n + 1)] + [I, B(500), D, B(501)]
+        cs.append({'cls': cls, 'n': n, 'mt': 'b16', 'intents': h + drain_intents(n), 'origin': 'corpus-partial'})
   # the BypassQueue2RTL bubble: 1 of 2 entries held, enq.rdy low
   cs.append({'cls': 'erBypass2', 'n': 2, 'mt': 'b16', 'intents': [E(1), E(2), D, I, I] + drain_intents(2), 'origin': 'corpus'})
   return cs
@@ -229,6 +285,7 @@ def run(ck):
     ck.notes.append('pymtl3.stdlib.queues.valrdy_queues cannot be imported as shipped (' + U.VALRDY_IMPORT_ERROR +
                     '); its classes were exercised with the two missing interfaces supplied by the harness')
   batch = Batch(ck)
+  PARTIAL_COV.clear(); VIOL_CAP.clear()
   for case in corpus(): do_case(ck, batch, case)
   batch.flush()
   per_cfg = 10 if ck.tier == "quick" else 110
@@ -251,6 +308,17 @@ def run(ck):
       st, ed = exhaustive(ck, batch, cls, n, 'b16')
       ex[f'{cls}/{n}'] = [st, ed]
   batch.flush()
+  want = {}
+  for cls in ALL_CLASSES:
+    if U.CLASSES[cls][0] in 'AB' or cls == 'vrNormalN':
+      for n in U.capacities(cls, (2, 3, 4, 5, 6, 7, 8)):
+        if n >= 2: want[(cls, n)] = {(h, t) for h in range(n) for t in range(n) if h != t}
+  missing = {f'{c}/{n}': sorted(w - PARTIAL_COV.get((c, n), set())) for (c, n), w in want.items() if w - PARTIAL_COV.get((c, n), set())}
+  ck.extra_cov['partial_fill_simultaneous'] = {
+    'what': 'enq+deq in one cycle with 0 < len < capacity seen at (head, tail) positions, multi-entry RTL classes, capacities 2..8',
+    'positions_required': sum(len(w) for w in want.values()),
+    'positions_seen': sum(len(PARTIAL_COV.get(k, set()) & w) for k, w in want.items()),
+    'missing': missing}
   ck.extra_cov['exhaustive_part'] = {'what': 'states (control registers x contents over 2 messages) and (state x intent) edges per class/capacity', 'table': ex}
 
 def replay(ck, data):
@@ -264,5 +332,5 @@ def replay(ck, data):
   for t, (i, a, b) in enumerate(zip(ins, impl, m)):
     print(f'{t:3d}: {i} | {a} | {b}' + ('   <-- differ' if a != b else ''))
   for t, k, law, msg in bad: print(f'oracle: cycle {t}: {k}/{law}: {msg}')
-  if stats['left']: print(f"oracle: {stats['left']} accepted message(s) not delivered at the end")
+  if stats['left'] and not stats['raised']: print(f"oracle: {stats['left']} accepted message(s) not delivered at the end")
   return 1 if bad else 0
